@@ -5,7 +5,7 @@
 import json, os, re, shutil, subprocess, sys
 V = os.path.dirname(os.path.dirname(os.path.abspath(__file__)))
 pid, var = sys.argv[1], sys.argv[2]
-src = "/tmp/seed/out/%s/%s" % (pid, var)
+src = "%s/%s/%s" % (os.environ.get("SEED_SRC", "/tmp/seed/out"), pid, var)
 wt = "/tmp/sv/%s-%s" % (pid, var)
 env = dict(os.environ, GOFLAGS="-mod=mod", GOPROXY="off", GOSUMDB="off", GOTOOLCHAIN="local")
 
@@ -17,7 +17,9 @@ os.makedirs("/tmp/sv", exist_ok=True)
 sh("git -C /repo worktree remove --force %s" % wt)
 rc, o = sh("git -C /repo worktree add -q --detach %s HEAD" % wt)
 assert rc == 0, o
-meta = {"property": pid, "variant": var, "source": "independent sub-agent given only the property text"}
+meta = {"property": pid, "variant": var, "source": "independent sub-agent given only the property text" + (" and one line each about the two earlier changes (round 2)" if var == "c" else "")}
+patchname = "patch_rebased.diff" if os.path.exists(src + "/patch_rebased.diff") else "patch.diff"
+meta["patch"] = patchname + (" (the sub-agent's patch.diff, re-based by hand onto a later fix: commit of /repo that touched the same lines)" if patchname != "patch.diff" else "")
 try:
     readme = open(src + "/README.md").read()
     # locate the demo and its command
@@ -29,7 +31,7 @@ try:
     else:
         runpat, pkg = None, None
     meta["demo_cmd"] = "go test -vet=off -count=1 %s -run '%s' %s/" % ("-tags verif" if "-tags verif" in readme else "", runpat, pkg)
-    rc, o = sh("git apply --check %s/patch.diff && git apply %s/patch.diff" % (src, src), cwd=wt)
+    rc, o = sh("git apply --check %s/%s && git apply %s/%s" % (src, patchname, src, patchname), cwd=wt)
     meta["applies"] = rc == 0
     if rc != 0:
         meta["error"] = o[-500:]
@@ -46,7 +48,7 @@ try:
         rc, o = sh(meta["demo_cmd"], cwd=wt, timeout=900)
         meta["demo_fails_with_patch"] = rc != 0
         meta["demo_output_with_patch"] = o[-800:]
-        sh("git apply -R %s/patch.diff" % src, cwd=wt)
+        sh("git apply -R %s/%s" % (src, patchname), cwd=wt)
         rc, o = sh(meta["demo_cmd"], cwd=wt, timeout=900)
         meta["demo_passes_without_patch"] = rc == 0
         if rc != 0:
